@@ -206,9 +206,55 @@ func runC20(tier string) int {
 			c20Judge(r, "control:"+inj.name, src, errLine, res, opt, sw)
 		}
 	})
-	if !done {
+	// the size dimension: chains of depth D for every D up to a bound (one wrapper kind repeated, and all kinds
+	// rotating), every injection at the bottom
+	maxD := 40
+	if tier == "thorough" {
+		maxD = 120
+	}
+	type deepJob struct{ d, pat int }
+	var deep []deepJob
+	for d := maxDepth + 1; d <= maxD; d++ {
+		for pat := 0; pat <= len(c20Wraps); pat++ {
+			deep = append(deep, deepJob{d, pat})
+		}
+	}
+	deepDone := r.Parallel(uint64(len(deep)*len(c20Injs)), func(w int, idx uint64) {
+		inj := c20Injs[idx%uint64(len(c20Injs))]
+		j := deep[idx/uint64(len(c20Injs))]
+		chain := make([]int, j.d)
+		for i := range chain {
+			if j.pat == len(c20Wraps) {
+				chain[i] = (i * 3) % len(c20Wraps)
+				if c20Wraps[chain[i]].single {
+					chain[i] = 0
+				}
+			} else {
+				chain[i] = j.pat
+			}
+		}
+		src, errLine, legal, ok := c20Build(c20Roots[0], chain, inj)
+		if !ok {
+			return
+		}
+		res := comp.Compile(src, comp.Opts{Optimize: true, Switches: sw})
+		r.Add("evaluations", 1)
+		r.Add("deep_chain_programs", 1)
+		if res.Panic != "" {
+			r.Report(harness.Violation{Sig: "C20:panic", Summary: "compiler panic: " + firstLine(res.Panic) + fmt.Sprintf("\n  source: %q", clip(src, 400)), Replay: map[string]interface{}{"source": src}})
+			return
+		}
+		if legal {
+			return
+		}
+		r.Add("ill_formed_programs", 1)
+		r.Add("nontrivial", 1)
+		c20Judge(r, "control:"+inj.name, src, errLine, res, true, sw)
+	})
+	if !done || !deepDone {
 		r.NotExhaustive("chain enumeration not completed")
 	}
+	r.Set("deep_chain_max_depth", maxD)
 	c20TopLevel(r)
 	r.Set("max_chain_depth", maxDepth)
 	r.Set("chains", len(chains))
@@ -216,7 +262,7 @@ func runC20(tier string) int {
 	r.Assume("one statement per line, so the reported start line identifies the offending construct",
 		"offending construct: the break / continue, the second case with the same value, the second default, the second const, the user text / movement statement, the label")
 	return r.Finish(r.Get("evaluations"), r.Get("nontrivial"),
-		"every nesting chain of depth <= d over {if, else, elif, while, infinite while, do...while, switch case, default, poryswitch brace / colon case} under 3 roots (script, inline map script, table inline script) x 47 injections (break / continue outside their scopes incl. after every closed loop / switch / if that contains another loop or switch, continue not last, duplicate case value incl. via a constant and multi-token, second default) + redefined constants, text / movement names equal to generated ones, script labels equal to every generated label of the renamed program and to text labels; non-trivial = the program is ill-formed (an error is required)")
+		"every nesting chain of depth <= d over {if, else, elif, while, infinite while, do...while, switch case, default, poryswitch brace / colon case} under 3 roots (script, inline map script, table inline script) x 54 injections, plus chains of every depth up to the deep-chain bound in the coverage (each wrapper kind repeated, and all kinds rotating) (break / continue outside their scopes incl. after every closed loop / switch / if that contains another loop or switch, continue not last, duplicate case value incl. via a constant and multi-token, second default) + redefined constants, text / movement names equal to generated ones, script labels equal to every generated label of the renamed program and to text labels; non-trivial = the program is ill-formed (an error is required)")
 }
 
 func c20Judge(r *harness.Run, what, src string, errLine int, res comp.Result, opt bool, sw map[string]string) {
